@@ -73,8 +73,19 @@ RecAddDefinition(canon, _cx,
                  If(V.is_VCons(_cx), V.VCons(canon(V.hd(_cx)), canon(V.tl(_cx))), _cx)))))
 
 
+# python == is NOT reflexive on every value: float('nan') != float('nan'), and an object may define a non-reflexive __eq__.  A value
+# flagged `selfne` compares unequal to everything, itself included (None / bool / int / str / bytes / tuples / sentinels never are).
+# Without this, `a is b or a == b` and `a == b` would be indistinguishable (an "identity shortcut" refactoring would verify).
+nan_r = Function('nan_r', RealSort(), BoolSort())
+selfne_o = Function('selfne_o', U, BoolSort())
+
+
+def selfne(x):
+    return If(V.is_VReal(x), nan_r(V.r(x)), If(V.is_VObj(x), selfne_o(V.o(x)), BoolVal(False)))
+
+
 def py_eq(a, b):
-    return canon(a) == canon(b)
+    return And(canon(a) == canon(b), Not(selfne(a)), Not(selfne(b)))
 
 
 def canon_axioms():
